@@ -351,7 +351,8 @@ pub fn c13_cases(tier: &str) -> Vec<Value> {
         v.push(json!({"kind": "sketch-seq", "num_counters": w, "len": len}));
         v.push(json!({"kind": "sketch-long", "num_counters": w}));
         v.push(json!({"kind": "tiny", "num_counters": w, "len": if w <= 16 { len.min(6) } else { 4 }}));
-        v.push(json!({"kind": "tiny-batch", "num_counters": w, "len": if tier == "quick" { 4 } else { 5 }}));
+        // (wide estimators: fewer sequences, the batch sizes around the window length matter)
+        v.push(json!({"kind": "tiny-batch", "num_counters": w, "len": if w > 70 { 2 } else if tier == "quick" { 4 } else { 5 }}));
     }
     v
 }
@@ -670,7 +671,7 @@ fn c13_tiny_batch(case: &Value, acc: &mut CompAcc) {
     };
     let sn = probe.snap();
     let keys = sketch_keys(sn.mask, sn.seeds);
-    let mut sizes: Vec<usize> = vec![2, 3, 5, 7, nc.saturating_sub(1), nc, nc + 1, 2 * nc + 1, 48, 64];
+    let mut sizes: Vec<usize> = if nc > 70 { vec![nc - 1, nc, nc + 1, 2 * nc + 1, 64, 1000] } else { vec![2, 3, 5, 7, nc.saturating_sub(1), nc, nc + 1, 2 * nc + 1, 48, 64] };
     sizes.retain(|b| *b >= 1);
     sizes.sort();
     sizes.dedup();
@@ -693,10 +694,12 @@ fn c13_tiny_batch(case: &Value, acc: &mut CompAcc) {
                 return;
             }
             let mut resets = 0;
+            let mut fed = 0usize;
             for chunk in long.chunks(b) {
                 for h in chunk {
                     one.increment(*h);
-                    if one.snap().w == 0 {
+                    fed += 1;
+                    if fed % nc == 0 {
                         resets += 1;
                     }
                 }
